@@ -164,8 +164,29 @@ def problem(em, seed):
         st = em.GMMStats(C, dim)
         st.n, st.sum_px, st.sum_pxx, st.t = N[h].copy(), Fs[h].copy(), np.zeros((C, dim)), 1
         stats.append(st)
+    history = bool(r.rand() < 0.35)
+    if history:
+        # the same object has already enrolled a client and has then been trained further: whatever it keeps
+        # from before must not show in the next enrolment (the problem is posed with its CURRENT U, V, D)
+        mach.enroll_iterations = 2
+        mach.enroll(stats)
+        train, ytrain = [], []
+        for cls in range(2):
+            for _ in range(2):
+                st = em.GMMStats(C, dim)
+                nn = r.uniform(0.5, 5.0, size=C)
+                st.n, st.sum_px, st.sum_pxx, st.t = nn, nn[:, None] * (means + r.normal(size=(C, dim)) * 1.5), np.zeros((C, dim)), 1
+                train.append(st)
+                ytrain.append(cls)
+        mach.em_iterations = 1
+        mach.fit(train, ytrain)
+        U = np.array(mach.U, dtype=float)
+        D = np.array(mach.D, dtype=float)
+        if jfa:
+            V = np.array(mach.V, dtype=float)
     P = fm.Problem(means, var, U, V, D, N, Fs)
-    meta = {"seed": seed, "machine": "JFAMachine" if jfa else "ISVMachine", "C": C, "D": dim, "sessions": H, "r_U": rU,
+    meta = {"seed": seed, "machine": "JFAMachine" if jfa else "ISVMachine", "history": "enroll, fit, enroll" if history else "fresh",
+            "C": C, "D": dim, "sessions": H, "r_U": rU,
             "r_V": rV, "ubm_means": means.tolist(), "ubm_variances": var.tolist(), "U": U.tolist(),
             "V": None if V is None else V.tolist(), "Dvec": D.tolist(), "n": N.tolist(), "sum_px": Fs.tolist()}
     return mach, stats, P, meta
